@@ -337,15 +337,17 @@ def check_e2e(rec, inp):
             sne_likelihood="CUSTOM", kwargs_sne_likelihood=dict(mag_mean=mag.copy(), cov_mag=cov.copy(), zhel=zh.copy(), zcmb=zc.copy()),
             interpolate_cosmo=bool(inp["interpolate_cosmo"]), num_redshift_interp=200)
     try:
-        A, B = make(za), make(zb)
+        A = make(za)
         c = A.cosmo_instance(kc)
-        shift = float(mu_of(c, zb) - mu_of(c, za))
         va = fscalar(A.likelihood(A.param.kwargs2args(kwargs_cosmo=kc, kwargs_source=dict(mu_sne=m, sigma_sne=0))))
-        vb = fscalar(B.likelihood(B.param.kwargs2args(kwargs_cosmo=kc, kwargs_source=dict(mu_sne=m + shift, sigma_sne=0))))
         # with interpolate_cosmo the distance table ends at max(z_source, z_SNe, anchor): two anchors above the data give two
-        # different tables (1e-6 relative interpolation differences), so the relational check needs a common table
+        # different tables (1e-6 relative interpolation differences, and A's table does not reach z_b), so the relational
+        # check needs a common table; otherwise only the value check below is made
         same_table = (not inp["interpolate_cosmo"]) or max(za, zb) <= max(zs, float(np.max(zc)))
         if same_table:
+            B = make(zb)
+            shift = float(mu_of(c, zb) - mu_of(c, za))
+            vb = fscalar(B.likelihood(B.param.kwargs2args(kwargs_cosmo=kc, kwargs_source=dict(mu_sne=m + shift, sigma_sne=0))))
             rec.check(rec.close(va, vb, rtol=1e-9, atol=1e-7), "C11:e2e:anchor_shift",
                       "joint lens+SNe likelihood changes when the anchor is moved with the modulus difference", inp, [va, vb], "equal")
         else:
